@@ -3,9 +3,12 @@ CONSTANTS
   LW = 3
   CW = 3
   MaxRows = 2
-  DPc = {1, 2, 3, 4, 5, 6, 7, 9, 10}
-  DLine <- SmallD
-  DCol <- SmallD
+  DPc1 = {0, 1, 2, 3, 4, 5, 6, 7, 8, 9, 10}
+  DLine1 <- SmallD
+  DCol1 <- SmallD
+  DPc2 = {1, 4, 7}
+  DLine2 <- LookupDL
+  DCol2 <- LookupDC
   Line0 = 12
   Col0 = 11
   Greedy = TRUE
